@@ -465,3 +465,23 @@ def _manager_histories(rep: C.Report, tier: str):
                 if not pl < 0 < ph:
                     rep.violation("total pressure does not change sign within 3*errTol (configured) of the velocity reported by the manager",
                                   dict(info, pressure_below=float(pl), pressure_above=float(ph)), finding_key="C01:manager-sign-change")
+    # tightened tolerance (two orders of magnitude below the default): the zero must be bracketed within the CONFIGURED tolerance, whatever
+    # defaults the classes between the configuration and the root finder have
+    for cfg in (((30, 1e-5),) if tier == "quick" else ((30, 1e-5), (24, 3e-5), (36, 3e-6))):
+        m = MC.new_manager(*cfg, u=U)
+        got = m.solveWall(MC.settings())
+        rep.case(key=("manager-tight-tolerance", cfg))
+        rep.count("manager tight-tolerance solves")
+        if not (got.success and got.wallVelocity is not None):
+            continue
+        eom = m.setupWallSolver(MC.settings()).eom
+        hy = m.hydrodynamics
+        v = got.wallVelocity
+        vmax = min(hy.vJ, hy.fastestDeflag())
+        wp = WallParams(widths=np.array(got.wallWidths), offsets=np.array(got.wallOffsets))
+        pl, ph = eom.wallPressure(max(v - 2 * cfg[1], hy.vMin), wp)[0], eom.wallPressure(min(v + 2 * cfg[1], vmax), wp)[0]
+        if not pl < 0 < ph:
+            rep.violation("total pressure does not change sign within 2*errTol (configured, tightened) of the velocity reported by the manager",
+                          {"model": f"toy1 (unit factor {U}) via WallGoManager (harness/manager_common.py)", "config(spatialGridSize, errTol)": list(cfg),
+                           "velocity": v, "pressure_below": float(pl), "pressure_above": float(ph), "window": [hy.vMin, vmax]},
+                          finding_key="C01:manager-sign-change-tight")
